@@ -20,7 +20,7 @@ def replay(ctx, path):
     drv = vlib.go_build(ctx, "./cmd/listeners", "listeners")
     if sched:
         inp = os.path.join(ctx.scratch, "replay.json")
-        json.dump({"kinds": ln_common.KINDS_JSON, "schedules": [sched] * 5}, open(inp, "w"))
+        json.dump({"kinds": ln_common.KINDS_JSON, "foreign": ln_common.FOREIGN, "schedules": [sched] * 5}, open(inp, "w"))
         tf, err = ln_common.run_driver(ctx, drv, "sched", ["-in", inp, "-watchdog", "2s"], "replay")
     else:
         tf = os.path.join(ctx.scratch, "replay.ndjson")
